@@ -136,7 +136,7 @@ def build(ctx, P, G, klen, opts, lead, trail, checksum_mode, stray=None):
         ctx.assume(mkbool(z3.Not(z3.Or(*stray_conds))))
     bad = []
     for k in (0x69, 0x2E, 0x00):
-        for i in range(lead, lead + P - 6):
+        for i in range(0, len(cells) - 6):  # (anywhere in the file: the guard area and the area boundary included)
             c = cand(cells, k, i)
             if c is True:
                 raise PathAbort()
@@ -170,7 +170,16 @@ def h_recover(P, G, klen, opts, lead, trail, stray=None):
     """the true key is among the candidates (in the real code: ranked by the heuristic; natively the real heuristic runs)"""
     def body(ctx):
         cells, lay = build(ctx, P, G, klen, opts, lead, trail, "good", stray)
-        decoy = SymBytes([0x11, 0x22, 0x33, 0x44, 0x55, 0x66][:klen])  # a wrong candidate ranked first (its checksum is decided by the solver)
+        decoy = SymBytes([0x11, 0x22, 0x33, 0x44, 0x55, 0x66][:klen])  # a wrong candidate ranked first
+        # ... which fails the checksum: the checksum is the ONLY acceptance criterion, so a wrong key whose unmasked bytes happen to
+        # have the stored weighted sum is legitimately accepted (the solver finds such collisions, e.g. key 11 20 33 44 vs 11 22 33 44)
+        wrong = xcells(xcells(lay["masked_cfg"], [0x2E] * P), tile(decoy.cells, P))
+        collide = compare("==", binop("+", ref_checksum(wrong), 1), lay["good"])
+        if is_native():
+            if collide:
+                raise PathAbort()
+        else:
+            ctx.assume(mkbool(z3.Not(tobool_expr(collide))) if not isinstance(collide, bool) else (not collide))
         holder = {}
 
         def cands(fh):
